@@ -401,10 +401,52 @@ def real_replay(ck, replay_bin, meta):
         return {"error": repr(e)}
 
 
+def scale_covariance(ck, binary, rng):
+    """double precision, real code: D(2^k s)/2^k (x^2; /4^k for x^3) must not depend on k (eps scaled with the tensor)"""
+    K = (0, -50, -30, -10, 10, 30, 50)
+    eig = [(1.0, 2.0, 4.0), (-1.5, 0.25, 3.0), (0.3, -0.2, 0.9), (1.0, 1.0, 3.0), (2.0, 5.0, 2.0), (2.0, 2.0, 2.0)]
+    for _ in range(6 if ck.quick else 200):
+        v = [round(rng.uniform(-4, 4), 3) for _ in range(3)]
+        if rng.random() < 0.3:
+            v[rng.randrange(3)] = v[rng.randrange(3)]
+        eig.append(tuple(v))
+    req = ["%r %r %r %d 1e-10" % (l[0], l[1], l[2], k) for l in eig for k in K]
+    p = ck.run([binary], input="\n".join(req) + "\n", timeout=600)
+    out = p.stdout.splitlines()
+    stats = {"tensors": len(eig), "scales": list(K), "max_relative_difference": 0.0}
+    if p.returncode != 0 or len(out) != len(req) or any(not l.startswith("D ") for l in out):
+        ck.violation("scale:harness", "C05 scale harness failed (rc=%d, %d lines)" % (p.returncode, len(out)),
+                     {"stderr": p.stderr[-2000:]}, False)
+        return stats
+    n = len(K)
+    for g, l in enumerate(eig):
+        rows = [[float(x) for x in out[g * n + j].split()[1:]] for j in range(n)]
+        base = rows[0]
+        m = max(abs(x) for x in base) or 1.0
+        for j in range(1, n):
+            bad = [(i, a, b) for i, (a, b) in enumerate(zip(rows[j], base)) if not (abs(a - b) <= 1e-12 * m)]
+            e = max((abs(a - b) for a, b in zip(rows[j], base) if a == a and b == b), default=0.0) / m
+            stats["max_relative_difference"] = max(stats["max_relative_difference"], e)
+            if bad:
+                i, a, b = bad[0]
+                which = ["computeIsotropicFunctionDerivative(x^2)", "computeIsotropicFunctionAndDerivative(x^2)",
+                         "computeIsotropicFunctionDerivative(x^3)"][i // 36]
+                ck.violation("scale:StensorComputeIsotropicFunctionDerivative<3u>:absolute-threshold",
+                             "%s of the 3D tensor with eigenvalues %s (fixed rotation) scaled by 2^%d, eps = 1e-10 * 2^%d: entry (%d,%d) "
+                             "divided by the scale is %r, at scale 1 it is %r — the derivative of a homogeneous isotropic function "
+                             "depends on the size of the tensor (an absolute threshold sits in the way)"
+                             % (which, list(l), K[j], K[j], (i % 36) // 6, i % 6, a, b),
+                             {"input": {"eigenvalues": list(l), "scale_exponent": K[j], "eps_at_scale_1": 1e-10},
+                              "real_code_result": a, "expected": b, "request": req[g * n + j]}, True)
+                return stats
+    return stats
+
+
 def run(ck):
     tracer = ck.cxx("c05trace", ["C05/trace.cxx", "C05/trace_abs.cxx",
                                  vlib.REPO + "/src/Exception/ContractViolation.cxx"], opt="-O0")
     replay_bin = ck.cxx("c05replay", ["C05/replay.cxx", vlib.REPO + "/src/Exception/ContractViolation.cxx"], opt="-O1")
+    scale_bin = ck.cxx("c05scale", ["C05/scale.cxx", vlib.REPO + "/src/Exception/ContractViolation.cxx"], opt="-O1")
     p = ck.run([tracer], timeout=600)
     if p.returncode != 0:
         raise vlib.BuildError("tracer c05trace failed on the current tree (value dependent branch on a symbol outside "
@@ -438,6 +480,7 @@ def run(ck):
                      "traced unit %s (real code instantiated on the recording scalar) disagrees with the property's reference "
                      "at an exact input: output %s = %s, expected %s" % (f["unit"], f["output"], f["code_value_exact"], f["spec_value_exact"]),
                      f, True)
+    scale_stats = scale_covariance(ck, scale_bin, rng)
     if ck.tier == "thorough" and res.ok:
         for m, log in ck.leanchecker(props):
             ck.violation("leanchecker:" + m, "leanchecker rejects " + m, {"log": log}, False)
@@ -447,6 +490,7 @@ def run(ck):
         "concolic mode: one trace per branch pattern of the eps tests; the *_paths_cover theorems show the traced patterns are exhaustive for computeIsotropicFunctionDerivative; for DecompositionInPositiveAndNegativeParts only the traced patterns are covered (statement coverage of the file, not all combinations)",
         "harness/C05/trace.cxx replaces std::max/std::min/tfel::math::abs on the recording scalar by max/min/abs nodes (abs itself is traced and proved on both paths) and the default eigen-solver by uninterpreted results (what the solver returns is property C03)",
         "outputs that are the same DAG node of a trace are emitted as aliases (checks/C05.py emit_groups)",
+        "supporting clause in double precision (harness/C05/scale.cxx): for f = x^2 and x^3 the derivative is positively homogeneous, so the real double code must return the same numbers (relative 1e-12; bit-exact on the unchanged tree) when the tensor and eps are scaled by powers of two between 2^-50 and 2^50 — this exhibits absolute thresholds of rounding size, which the exact model cannot",
         "general smooth f (Daleckii–Krein theorem) is not proved: only that the code computes the Daleckii–Krein form, and that this form is the derivative for f = x^2, x^3",
     ]
     return ck.finish({
@@ -455,6 +499,6 @@ def run(ck):
         "branch_patterns": sorted(u.name for u in units if u.paths),
         "evaluations": stats["points"], "distinct_nontrivial": stats["points"],
         "rule": "each traced unit evaluated exactly over Q(sqrt2) at seeded random rational inputs satisfying the unit's own recorded path condition, compared with an independent python reference (checks/c05ref.py); distinct = points (random rationals)",
-        "search_stats": stats,
+        "search_stats": stats, "scale_covariance": scale_stats,
         "samples": [{"unit": u.name, "inputs": u.inputs[:12], "outputs": [o for o, _ in u.outs][:8], "path_conditions": len(u.paths)} for u in units[:4]],
     })
